@@ -50,8 +50,8 @@ def _reader_ns(k: K.Kit, integ: str, frames: list) -> tuple[list, list, list]:
     return events, bound, shapes
 
 
-def _write(k: K.Kit, integ: str, physical: int, stmts: list, ns_enabled: bool, bindings: list, via: str, frame_size: int = 250) -> list:
-    opts = P.make_options(k, logical=None, namespaces=ns_enabled, generalized=integ == "generic", rdf_star=integ == "generic", frame_size=frame_size)
+def _write(k: K.Kit, integ: str, physical: int, stmts: list, ns_enabled: bool, bindings: list, via: str, frame_size: int = 250, preset: tuple = (8, 8, 8)) -> list:
+    opts = P.make_options(k, logical=None, namespaces=ns_enabled, generalized=integ == "generic", rdf_star=integ == "generic", frame_size=frame_size, preset=preset)
     writer = P.write_generic if integ == "generic" else P.write_rdflib
     frames, _stream = writer(k, physical, stmts, opts, via=via, namespaces=bindings)
     return frames
@@ -73,20 +73,21 @@ def check(chk: Check) -> None:
         for physical in (1, 2, 3):
             arity = 3 if physical == 1 else 4
             stmts = [tuple(C.base("a", arity)), tuple(C.base("b", arity))]
-            for via, fsz in [(v, f_) for v in (("sink", "grouped2", "generator") if integ == "generic" else ("store", "grouped2", "generator")) for f_ in (250, 2)]:
+            vias = ("sink", "grouped2", "generator") if integ == "generic" else ("store", "grouped2", "generator")
+            for via, fsz, preset in [(v, f_, (8, 8, 8)) for v in vias for f_ in (250, 2)] + [(vias[0], 250, (8, 0, 8)), (vias[0], 250, (16, 2, 8))]:
 
                 def scenario(it: Interp) -> Any:
                     k = K.Kit(it)
                     out: dict[str, Any] = {}
                     bindings = NS if via != "generator" else None
                     try:
-                        off = _write(k, integ, physical, stmts, False, bindings, via, fsz)
+                        off = _write(k, integ, physical, stmts, False, bindings, via, fsz, preset)
                         out["off_rows"] = [x for x in refdec.decode(it.schema, off).items if x[0] == "ns"]
                         out["off_stmts"] = freeze([x for x in refdec.decode(it.schema, off).items if x[0] != "ns"])
                     except PyRaise as pr:
                         out["off_error"] = (it.exc_class_name(pr.exc), str(pr.site))
                     try:
-                        on = _write(k, integ, physical, stmts, True, bindings, via, fsz)
+                        on = _write(k, integ, physical, stmts, True, bindings, via, fsz, preset)
                     except PyRaise as pr:
                         out["on_error"] = (it.exc_class_name(pr.exc), str(pr.site))
                         return out
@@ -103,13 +104,13 @@ def check(chk: Check) -> None:
                         out["shapes"] = shapes
                         # fixpoint: write again from what was read
                         if via != "generator":
-                            again = _write(k, integ, physical, stmts, True, [(p, i) for p, i in bound], "sink" if integ == "generic" else "store")
+                            again = _write(k, integ, physical, stmts, True, [(p, i) for p, i in bound], "sink" if integ == "generic" else "store", 250, preset)
                             out["again_rows"] = freeze(P.unsplit(it, [(x[1], x[2]) for x in refdec.decode(it.schema, again).items if x[0] == "ns"]))
                     except PyRaise as pr:
                         out["reader_error"] = (it.exc_class_name(pr.exc), str(pr.site))
                     return out
 
-                inst = f"{integ} physical={physical} via={via} frame_size={fsz}"
+                inst = f"{integ} physical={physical} via={via} frame_size={fsz}" + (f" preset={preset}" if preset != (8, 8, 8) else "")
                 for it, res in explore(prog, scenario, max_paths=16, generic_strings=True):
                     chk.paths += 1
                     chk.saw_functions(it)
